@@ -24,7 +24,10 @@ MANIFEST = dict(
          "dropped or duplicated); C04_count — prod(input_shape) = number of flattened elements; C04_outer / C04_inner — "
          "the same as an operand of an outer splitter (lexicographic product, left slowest) and of an inner splitter "
          "(positional pairing of all elements, or rejection for unequal shapes; never rejected when both operands are "
-         "rectangular with equal dimensions); C04_shape_rect — on rectangular values input_shape is the dimension vector. "
+         "rectangular with equal dimensions); C04_outer_n / C04_inner_n — the same for flat n-ary outer and inner splitters "
+         "with any number of fields, any number of them nested (each with its own container dimension), in any position: "
+         "the jobs are the n-ary lexicographic product / positional pairing of the fields' elements_at_depth lists; "
+         "C04_shape_rect — on rectangular values input_shape is the dimension vector. "
          "The model is tied to the code on every run by running State.prepare_states (states_ind, states_val) and "
          "Task.split(..., container_ndim=...) through Submitter(worker='debug') on enumerated/sampled nested lists and "
          "evaluating model and executable spec on the same cases inside Coq (vm_compute).",
@@ -41,14 +44,16 @@ TRUSTED = [
     "step of State.splits (itertools.product / zip after the shape test), iter_splits, map_splits",
     "modelled, not verified: values are Python ints and lists only (tuples, which flatten opens but input_shape does "
     "not, are outside the model); itertools iterators are eager lists; states from upstream nodes (inner_inputs) and "
-    "splitters of more than two fields belong to C01/C03",
+    "mixed outer/inner nestings of more than two fields belong to C01/C03; flat n-ary splitters are modelled as the "
+    "left fold splitter2rpn produces (index tuples kept flattened) and observed at State level only",
 ]
 ASSUMPTIONS = ["split values are (nested) Python lists of atoms; container dimension >= 1 (the property's quantifier); "
                "a field without a container_ndim entry has container dimension 1"]
 RULE = ("nested lists of uniform depth 1-3 with inner lengths 0-3 (all of depth <= 2 and all of depth 3 with lengths "
         "0-2 enumerated, depth 3 with lengths up to 3 sampled: rectangular, one-list-perturbed and fully random ragged), "
         "a few mixed-depth values, x every container dimension 1..depth (and depth+1, and the default), alone and as the left/right operand of an outer and of an inner splitter whose other "
-        "operand is a plain list or a second nested field; non-trivial = distinct case with container dimension >= 2 "
+        "operand is a plain list or a second nested field, and at a random position of a flat 3-4 field outer / inner "
+        "splitter (State level); non-trivial = distinct case with container dimension >= 2 "
         "and >= 2 elements at that depth")
 
 IMPORTS = ["Model.Nested", "Spec.Nested"]
@@ -197,7 +202,22 @@ def enc_ind(ind, pair):
     return "(Some %s)" % coqio.lst([coqio.nat(i) for i in ind])
 
 
+def enc_field(f):
+    return coqio.pair(enc_cd(f[0]), enc_children(f[1]))
+
+
 def enc_case(c, obs, ind):
+    if c["kind"] == "nary":
+        ty = "(list value)"
+        if obs[0] == "shape":
+            o = "(@ShapeError %s)" % ty
+        elif obs[0] == "index":
+            o = "(@IndexErr %s)" % ty
+        else:
+            o = "(@Jobs %s %s)" % (ty, coqio.lst([coqio.lst([enc_value(a) for a in job]) for job in obs[1]]))
+        i = "None" if ind is None else "(Some %s)" % coqio.lst([coqio.lst([coqio.nat(k) for k in t]) for t in ind])
+        return "(CNary %s %s %s %s %s)" % (c["op"], enc_field(c["fields"][0]),
+                                          coqio.lst([enc_field(f) for f in c["fields"][1:]]), o, i)
     if c["kind"] == "single":
         return "(CSingle %s %s %s %s)" % (enc_cd(c["cdx"]), enc_children(c["x"]), enc_outcome(obs, False),
                                           enc_ind(ind, False))
@@ -210,7 +230,10 @@ Local Open Scope nat_scope.
 Inductive case : Type :=
 | CSingle (cd : option nat) (x : list value) (obs : outcome value) (ind : option (list nat))
 | CPair (o : binop) (cdx : option nat) (x : list value) (cdy : option nat) (y : list value)
-        (obs : outcome (value * value)) (ind : option (list (nat * nat))).
+        (obs : outcome (value * value)) (ind : option (list (nat * nat)))
+| CNary (o : binop) (f0 : field) (fs : list field) (obs : outcome (list value)) (ind : option (list (list nat))).
+Definition ops_of (f0 : field) (fs : list field) : list operand :=
+  map (fun f => (ndim_shape (fst f), Node (snd f))) (f0 :: fs).
 Definition nn_eqb (a b : nat * nat) : bool := Nat.eqb (fst a) (fst b) && Nat.eqb (snd a) (snd b).
 Definition ind_ok {A} (eqb : A -> A -> bool) (model : option (list A)) (obs : option (list A)) : bool :=
   match obs with None => true | Some _ => option_eqb (list_eqb eqb) model obs end.
@@ -220,6 +243,8 @@ Definition tie_ok (c : case) : bool :=
   | CSingle cd x obs ind => outcome_eqb value_eqb (split1 cd x) obs && ind_ok Nat.eqb (Some (single_ind cd x)) ind
   | CPair o cdx x cdy y obs ind =>
       outcome_eqb pair_eqb' (split2 o cdx x cdy y) obs && ind_ok nn_eqb (pair_ind o cdx x cdy y) ind
+  | CNary o f0 fs obs ind =>
+      outcome_eqb (list_eqb value_eqb) (splitN o f0 fs) obs && ind_ok (list_eqb Nat.eqb) (nary_ind o f0 fs) ind
   end.
 (* the implementation did what the property demands *)
 Definition spec_ok (c : case) : bool :=
@@ -227,6 +252,8 @@ Definition spec_ok (c : case) : bool :=
   | CSingle cd x obs _ => single_okb (ndim_shape cd) (Node x) obs
   | CPair Outer cdx x cdy y obs _ => outer_okb (ndim_shape cdx) (Node x) (ndim_shape cdy) (Node y) obs
   | CPair Inner cdx x cdy y obs _ => inner_okb (ndim_shape cdx) (Node x) (ndim_shape cdy) (Node y) obs
+  | CNary Outer f0 fs obs _ => outer_n_okb (ops_of f0 fs) obs
+  | CNary Inner f0 fs obs _ => inner_n_okb (ops_of f0 fs) obs
   end.
 """
 
@@ -264,6 +291,8 @@ def _cd(c, name):
 def state_run(c):
     """State-level observation: (outcome, states_ind) of State.prepare_states."""
     from pydra.engine.state import State
+    if c["kind"] == "nary":
+        return state_run_nary(c)
     pair = c["kind"] == "pair"
     st = State(name="N", splitter=copy.deepcopy(_splitter(c, "N")), container_ndim=copy.deepcopy(_cd(c, "N")))
     inputs = {"N.x": copy.deepcopy(c["x"])}
@@ -290,6 +319,62 @@ def state_run(c):
     vals = st.states_val
     jobs = [(d["N.x"], d["N.y"]) for d in vals] if pair else [d["N.x"] for d in vals]
     return ("jobs", jobs), ind
+
+
+def state_run_nary(c):
+    """State-level observation for a flat n-ary splitter over fields f0..fk."""
+    from pydra.engine.state import State
+    names = ["N.f%d" % i for i in range(len(c["fields"]))]
+    sp = list(names) if c["op"] == "Outer" else tuple(names)
+    cd = {nm: f[0] for nm, f in zip(names, c["fields"]) if f[0] is not None}
+    st = State(name="N", splitter=copy.deepcopy(sp), container_ndim=cd or None)
+    inputs = {nm: copy.deepcopy(f[1]) for nm, f in zip(names, c["fields"])}
+
+    def get_ind():
+        si = getattr(st, "states_ind", None)
+        return None if si is None else [[d[nm] for nm in names] for d in si]
+    try:
+        st.prepare_states(inputs=inputs)
+    except Exception as e:  # noqa: BLE001
+        obs = _classify_exc(e)
+        ind = None
+        if obs[0] == "index":
+            try:
+                ind = get_ind()
+            except Exception:  # noqa: BLE001
+                ind = None
+        return obs, ind
+    return ("jobs", [[d[nm] for nm in names] for d in st.states_val]), get_ind()
+
+
+def make_nary(rng, v, n, shape_kind):
+    """A nested field among 2-3 partner fields (plain lists, sometimes a second nested one) in a flat
+    n-ary outer or inner splitter, at a random position."""
+    x = relabel(v)
+    cnt = len(elements(n, x))
+    op = rng.choice(["Outer", "Inner"])
+    k = rng.choice([2, 2, 3])
+    partners = []
+    for j in range(k):
+        base = 100 * (j + 1)
+        r = rng.random()
+        if op == "Outer":
+            if r < 0.8:
+                partners.append([None, relabel([0] * rng.randint(0, 2), base)])
+            else:
+                partners.append([2, relabel(random_uniform(rng, 2, 2), base)])
+        else:
+            if r < 0.45:
+                partners.append([None, relabel([0] * cnt, base)])
+            elif r < 0.8:
+                partners.append([n, relabel(x, base)])
+            elif r < 0.9:
+                partners.append([None, relabel([0] * len(x), base)])
+            else:
+                partners.append([n, relabel(perturb(rng, x, depth_of(x)), base)])
+    pos = rng.randint(0, k)
+    fields = partners[:pos] + [[n, x]] + partners[pos:]
+    return {"kind": "nary", "op": op, "fields": fields, "shape_kind": shape_kind}
 
 
 def e2e_batch(cases):
@@ -395,22 +480,30 @@ def make_pair(rng, v, n, shape_kind, nested_left=True):
 
 
 def case_key(c):
+    if c["kind"] == "nary":
+        return json.dumps(["nary", c["op"], c["fields"]])
     return json.dumps([c["kind"], c.get("op"), c["x"], c.get("cdx"), c.get("y"), c.get("cdy")])
 
 
 def nontrivial(c):
     def nt(v, n):
         return n is not None and n >= 2 and len(elements(n, v)) >= 2
+    if c["kind"] == "nary":
+        return any(nt(f[1], f[0]) for f in c["fields"])
     return nt(c["x"], c.get("cdx")) or (c["kind"] == "pair" and nt(c["y"], c.get("cdy")))
 
 
 def in_quantifier(c):
     """container dimensions >= 1 (None = default 1): the region where the theorems and the spec speak."""
+    if c["kind"] == "nary":
+        return all(f[0] is None or f[0] >= 1 for f in c["fields"])
     return all(c.get(k) is None or c.get(k) >= 1 for k in ("cdx", "cdy"))
 
 
 def not_rect(c):
     """Finding-F04 classifier: some operand is not rectangular at its container dimension."""
+    if c["kind"] == "nary":
+        return any(not rectangular(f[0] or 1, f[1]) for f in c["fields"])
     bad = not rectangular(c["cdx"] or 1, c["x"])
     if c["kind"] == "pair":
         bad = bad or not rectangular(c["cdy"] or 1, c["y"])
@@ -450,6 +543,12 @@ def build_cases(ctx):
             cases.append(make_single(v, n, kind))
         else:
             cases.append(make_pair(rng, v, n, kind, nested_left=rng.random() < 0.7))
+    # flat n-ary splitters (3-4 fields) around a nested field, State level
+    for v in all_uniform(2):
+        cases.append(make_nary(rng, v, rng.choice([1, 2, 2]), "enum2"))
+    for _ in range(ctx.budget(150, 2500)):
+        v, kind = gen_depth3(rng)
+        cases.append(make_nary(rng, v, rng.choice([2, 3, 3]), kind))
     # container dimension 0 is outside the property (1..depth): model/implementation agreement only
     for v in ([], [1], [[1, 2], [3]], [[1], [2]]):
         cases.append({"kind": "single", "x": v, "cdx": 0, "shape_kind": "ndim0"})
@@ -458,11 +557,17 @@ def build_cases(ctx):
 
 # ---------------------------------------------------------------- the run
 def _case_json(c):
-    return {k: c[k] for k in ("kind", "op", "x", "cdx", "y", "cdy") if k in c}
+    return {k: c[k] for k in ("kind", "op", "x", "cdx", "y", "cdy", "fields") if k in c}
 
 
 def _terms(c):
     """Gallina terms printing the model value and the spec's reference for one case."""
+    if c["kind"] == "nary":
+        return ["splitN %s %s %s" % (c["op"], enc_field(c["fields"][0]),
+                                    coqio.lst([enc_field(f) for f in c["fields"][1:]])),
+                coqio.lst(["(elements_at_depth %s %s, rectangularb %s %s)" % (
+                    coqio.nat(f[0] or 1), enc_value(f[1]), coqio.nat(f[0] or 1), enc_value(f[1]))
+                    for f in c["fields"]])]
     if c["kind"] == "single":
         return ["split1 %s %s" % (enc_cd(c["cdx"]), enc_children(c["x"])),
                 "elements_at_depth %s %s" % (coqio.nat(c["cdx"] if c["cdx"] is not None else 1), enc_value(c["x"]))]
@@ -492,11 +597,12 @@ def _failures(scratch, name, items):
         case["level"] = level
         observed = {"outcome": list(obs), "states_ind": ind}
         if kind == "spec":
-            what = ("outer: lexicographic product of the elements at depth n" if c.get("op") == "Outer" else
+            what = ("n-ary " if c["kind"] == "nary" else "") + ("outer: lexicographic product of the elements at depth n" if c.get("op") == "Outer" else
                     "inner: positional pairing of all elements, or rejection" if c.get("op") == "Inner" else
                     "one job per element at depth n, depth first")
             fid = "F04" if not_rect(c) else None
-            key = "spec: elements at depth n" + (" of x, of y; x, y rectangular?" if c["kind"] == "pair" else "")
+            key = "spec: elements at depth n" + (" of x, of y; x, y rectangular?" if c["kind"] == "pair" else
+                                                 " and rectangular? per field" if c["kind"] == "nary" else "")
             out.append(Failure(case=case, observed=observed, expected={key: spec, "model": model},
                                note=what + (" [value not rectangular at depth n]" if fid else ""), finding=fid,
                                kind="spec"))
@@ -508,7 +614,7 @@ def _failures(scratch, name, items):
 
 def run(ctx):
     cases = build_cases(ctx)
-    dist = {"single": 0, "outer": 0, "inner": 0, "rectangular": 0, "ragged": 0, "outcome_jobs": 0,
+    dist = {"single": 0, "outer": 0, "inner": 0, "nary_outer": 0, "nary_inner": 0, "rectangular": 0, "ragged": 0, "outcome_jobs": 0,
             "outcome_shape_error": 0, "outcome_index_error": 0, "outcome_other": 0, "state_level": 0, "end_to_end": 0,
             "ndim_1": 0, "ndim_2": 0, "ndim_3": 0, "ndim_default": 0, "ndim_0": 0}
     kinds = {}
@@ -531,7 +637,7 @@ def run(ctx):
         recs.append((c, "state", obs, ind))
     # --- end to end on a sample (corpus first, then a seeded sample biased to non-trivial cases)
     n_e2e = ctx.budget(70, 500)
-    cand = [c for c in cases if in_quantifier(c)]
+    cand = [c for c in cases if in_quantifier(c) and c["kind"] != "nary"]
     corpus_n = len(ctx.corpus())
     pick = cand[:corpus_n]
     rest = cand[corpus_n:]
@@ -548,17 +654,19 @@ def run(ctx):
     lits, keep = [], []
     for c, level, obs, ind in recs:
         dist["state_level" if level == "state" else "end_to_end"] += 1
-        dist[{"single": "single"}.get(c["kind"], c.get("op", "").lower())] += 1
+        dist[{"single": "single", "nary": "nary_" + c.get("op", "").lower()}.get(c["kind"], c.get("op", "").lower())] += 1
         dist["ragged" if not_rect(c) else "rectangular"] += 1
         for f in ("x", "y"):
-            if f == "x" or c["kind"] == "pair":
+            if c["kind"] != "nary" and (f == "x" or c["kind"] == "pair"):
                 n = c.get("cd" + f)
                 dist["ndim_default" if n is None else "ndim_%d" % min(n, 3)] += 1
+        for f in c.get("fields", []):
+            dist["ndim_default" if f[0] is None else "ndim_%d" % min(f[0], 3)] += 1
         kinds[c["shape_kind"]] = kinds.get(c["shape_kind"], 0) + 1
         dist["outcome_" + {"jobs": "jobs", "shape": "shape_error", "index": "index_error"}.get(obs[0], "other")] += 1
         if obs[0] == "other":
             # neither jobs nor one of the two modelled errors: the property's spec never allows it
-            out.failures.append(Failure(case={k: c[k] for k in ("kind", "op", "x", "cdx", "y", "cdy") if k in c},
+            out.failures.append(Failure(case=_case_json(c),
                                         observed=list(obs), expected="jobs, or ShapeError for an inner splitter",
                                         note="unexpected exception (%s level)" % level, kind="spec",
                                         finding="F04" if not_rect(c) else None))
@@ -569,7 +677,7 @@ def run(ctx):
     out.evaluations = len(recs)
     out.traces_validated = len(keep)
     out.distribution = dist
-    out.samples = [{"case": {k: c[k] for k in ("kind", "op", "x", "cdx", "y", "cdy") if k in c}, "level": level,
+    out.samples = [{"case": _case_json(c), "level": level,
                     "observed": list(obs)} for c, level, obs, _ in
                    [r for r in keep if nontrivial(r[0])][:3] + [r for r in keep if r[1] == "e2e" and nontrivial(r[0])][:3]]
     res = coqio.run_cases(ctx.scratch, "c04", IMPORTS, "case", lits, {"tie": "tie_ok", "spec": "spec_ok"},
@@ -594,11 +702,14 @@ def run(ctx):
 def replay(ctx, payload):
     c = payload["case"]
     c = {k: v for k, v in c.items() if k != "level"}
-    c.setdefault("cdy", None)
+    if c["kind"] != "nary":
+        c.setdefault("cdy", None)
     print("case:", json.dumps(c))
     obs, ind = state_run(c)
     print("implementation (State.prepare_states): outcome=%r states_ind=%r" % (obs, ind))
     try:
+        if c["kind"] == "nary":
+            raise RuntimeError("n-ary cases are observed at State level only")
         print("implementation (Task.split through Submitter(debug)): %r" % (e2e_run([c])[0],))
     except Exception as e:  # noqa: BLE001
         print("end-to-end run failed:", e)
